@@ -40,8 +40,46 @@ def lattice_configs(rng, shape):
         out.append(L('PadIfNeeded', min_height=None, min_width=None, min_depth=None,
                      pad_height_divisor=rng.randint(1, 5), pad_width_divisor=rng.randint(1, 5),
                      pad_depth_divisor=rng.randint(1, 5), position=rng.choice(POSITIONS), value=0, mask_value=0))
-    out.append(L('CropAndPad', px=rng.randint(1, 3), keep_size=False, pad_cval=0, pad_cval_mask=0))
+    out.append(L('CropAndPad', keep_size=False, pad_cval=0, pad_cval_mask=0, **crop_and_pad_amounts(rng)))
     return out
+
+
+def crop_and_pad_sweep(rng):
+    """the axis patterns of CropAndPad, each once per run: for every axis crop only / pad only / crop one side and pad
+    the other with the other two axes untouched, plus two all-axes mixtures; px and percent forms"""
+    out = []
+    for ax in range(3):
+        for pat in ('crop', 'pad', 'mixed'):
+            a, b = {'crop': (-rng.randint(0, 2), -rng.randint(1, 2)), 'pad': (rng.randint(0, 3), rng.randint(1, 3)),
+                    'mixed': (-rng.randint(1, 2), rng.randint(1, 3))}[pat]
+            if rng.random() < 0.5:
+                a, b = b, a
+            sides = [0] * 6
+            sides[2 * ax], sides[2 * ax + 1] = a, b
+            out.append({'px': tuple(sides)} if rng.random() < 0.8 else {'percent': tuple(v * 0.21 for v in sides)})
+    out.append({'px': tuple(rng.choice([-2, -1, 1, 2]) for _ in range(6))})
+    out.append({'px': tuple(rng.choice([-1, 0, 2]) for _ in range(6))})
+    return [L('CropAndPad', keep_size=False, pad_cval=0, pad_cval_mask=0, **kw) for kw in out]
+
+
+def crop_and_pad_amounts(rng):
+    """px / percent of CropAndPad in all its documented forms: one number, six per-side numbers (negative = crop,
+    positive = pad, zero = leave), often restricted to ONE axis (rows only / columns only / slices only) so that
+    code treating an axis as an afterthought is met"""
+    r = rng.random()
+    if r < 0.15:
+        return {'px': rng.choice([-1, 1, 2, 3])}
+    if r < 0.25:
+        return {'percent': rng.choice([-0.3, -0.15, 0.2, 0.4])}
+    sides = [rng.choice([-2, -1, -1, 0, 1, 2, 3]) for _ in range(6)]
+    if rng.random() < 0.6:
+        ax = rng.randrange(3)
+        sides = [v if i // 2 == ax else 0 for i, v in enumerate(sides)]
+        if not any(sides):
+            sides[2 * ax + rng.randrange(2)] = rng.choice([-1, 2])
+    if rng.random() < 0.25:
+        return {'percent': tuple(v * 0.17 for v in sides)}
+    return {'px': tuple(sides)}
 
 
 def dropout_configs(rng, shape):
